@@ -291,7 +291,24 @@ class _Store:
         os.rmdir(self.dir)
 
 
+def _state_digest(obj):
+    from ..util import digest
+    d = {k: v for k, v in vars(obj).items() if k != "ubm"}
+    return digest(d)
+
+
 def _save(obj, path, by):
+    before = _state_digest(obj)
+    _save_raw(obj, path, by)
+    if _state_digest(obj) != before:
+        raise _SaveModified()
+
+
+class _SaveModified(Exception):
+    pass
+
+
+def _save_raw(obj, path, by):
     if by == "path":
         obj.save(path)
         # the repo opens the file itself and leaves closing to the garbage collector
@@ -359,6 +376,8 @@ def _run_machine(case, rec, store):
         path = store.slot()
         try:
             _save(live, path, st["save_by"])
+        except _SaveModified:
+            return Result.violation("save-modifies-the-object", {"step": i})
         except Exception as e:
             return Result.violation("save-raises", {"step": i, "exception": repr(e)[:300],
                                                     "settings": _settings(live)})
@@ -520,6 +539,8 @@ def _run_stats(case, rec, store):
         path = store.slot()
         try:
             _save(live, path, st["save_by"])
+        except _SaveModified:
+            return Result.violation("save-modifies-the-object", {"step": i})
         except Exception as e:
             return Result.violation("save-raises", {"step": i, "exception": repr(e)[:300]})
         _fault(rec, "F5_save_" + st["save_by"])
